@@ -2,11 +2,21 @@
 """What the checks report on an unpatched checkout of /repo HEAD (to subtract when judging seeded changes)."""
 import json, os, subprocess, sys
 from pathlib import Path
+
+
+def _git_wt(*args, check=False):
+    """git worktree add/remove under a machine-wide file lock (git's worktree bookkeeping is not safe against concurrent add/remove)"""
+    import fcntl
+    os.makedirs("/tmp/vwt", exist_ok=True)
+    with open("/tmp/vwt/.wtlock", "w") as lk:
+        fcntl.flock(lk, fcntl.LOCK_EX)
+        return subprocess.run(["git", "-C", "/repo", "worktree", *args], capture_output=True, text=True, check=check)
+
 rev = sys.argv[1] if len(sys.argv) > 1 else "HEAD"
 head = subprocess.run(["git", "-C", "/repo", "rev-parse", rev], capture_output=True, text=True).stdout.strip()
 wt = Path("/tmp/vwt/baseline_" + head[:10]); wt.parent.mkdir(exist_ok=True)
-subprocess.run(["git", "-C", "/repo", "worktree", "remove", "--force", str(wt)], capture_output=True)
-subprocess.run(["git", "-C", "/repo", "worktree", "add", "-q", "--detach", str(wt), head], check=True)
+_git_wt("remove", "--force", str(wt))
+_git_wt("add", "-q", "--detach", str(wt), head, check=True)
 out = {}
 try:
     for pid in [f"C{i:02d}" for i in range(1, 21)]:
@@ -15,6 +25,6 @@ try:
         line = next((l for l in p.stdout.splitlines() if l.startswith("RESULT")), None)
         out[pid] = json.loads(line[7:]) if line else ["CRASH " + p.stderr[-200:]]
 finally:
-    subprocess.run(["git", "-C", "/repo", "worktree", "remove", "--force", str(wt)])
+    _git_wt("remove", "--force", str(wt))
 Path(f"/tmp/vwt_baseline_{head[:10]}.json").write_text(json.dumps(out, indent=1))
 print({k: len(v) for k, v in out.items() if v})
